@@ -324,6 +324,130 @@ class _RealEnv(_Env):
         return _Env.run(self, case, reuse)
 
 
+class _FlightEnv(_RealEnv):
+    """real listeners whose start / stop tasks complete in an order the harness controls: `_start` / `_stop` of the
+    server instances are wrapped so that one instance can be held at a gate while an update is in flight. The wrappers
+    also keep `bound`: which sockets are listening right now, known independently of Servers._instances."""
+    def __init__(self):
+        super().__init__()
+        from mitmproxy.proxy import mode_servers as ms
+        self.ms = ms
+        self.bound, self.events = {}, []
+        self.hold_start, self.hold_stop, self.gate = set(), set(), None
+        self.in_update_started = False
+        env = self
+        self.orig = (ms.AsyncioServerInstance._start, ms.AsyncioServerInstance._stop)
+        orig_start, orig_stop = self.orig
+
+        def idx_of(inst):
+            return env.specs.index(inst.mode)
+
+        async def _start(inst):
+            i = idx_of(inst)
+            if not env.in_update_started:
+                env.in_update_started = True
+                env.events.append("D")                       # start tasks only run once all stop tasks are gathered
+            if i in env.hold_start: await env.gate.wait()
+            await orig_start(inst)
+            srv = {"tp": inst.mode.transport_protocol, "addrs": [[a[0], a[1]] for a in inst.listen_addrs]}
+            env.bound[i] = srv
+            env.events.append(f"U;{i}={_srv_field(srv)}")
+
+        async def _stop(inst):
+            i = idx_of(inst)
+            if i in env.hold_stop: await env.gate.wait()
+            await orig_stop(inst)
+            env.bound.pop(i, None)
+            env.events.append(f"S;{i}")
+        ms.AsyncioServerInstance._start, ms.AsyncioServerInstance._stop = _start, _stop
+
+    def close(self):
+        try:
+            if self.gate is not None: self.gate.set()
+            super().close()
+        finally:
+            self.ms.AsyncioServerInstance._start, self.ms.AsyncioServerInstance._stop = self.orig
+
+    def _spec_strings(self, modes):
+        return [self.specs[i].full_spec for i in modes]
+
+    def begin(self, modes, server, hold=None, phase=None):
+        """apply the option change; returns when the update is through (hold is None) or when every start/stop task
+        other than the held one has completed"""
+        async def go():
+            self.gate = asyncio.Event()
+            self.hold_start = {hold} if phase == "start" else set()
+            self.hold_stop = {hold} if phase == "stop" else set()
+            self.in_update_started = False
+            before = set(self.bound)
+            target = set(modes) if server else set()
+            self.events.append(f"B;{1 if server else 0};{','.join(str(i) for i in modes) or '-'}")
+            kw = dict(mode=self._spec_strings(modes), server=bool(server))
+            if not self.started:
+                self.tctx.configure(self.ps, **kw)
+                self.started = True
+                self.ps.is_running = True
+                task = asyncio.ensure_future(self.ps.servers.update([self.specs[i] for i in modes]))
+                self._tasks = [task]
+            else:
+                cur = dict(mode=list(self.tctx.options.mode), server=self.tctx.options.server)
+                diff = {k: v for k, v in kw.items() if cur[k] != v}
+                if diff: self.tctx.configure(self.ps, **diff)
+            if hold is None:
+                await self._settle()
+                if not self.in_update_started: self.events.append("D")
+                return
+            # wait for everything that is not held
+            want_stop = {i for i in before - target if not (phase == "stop" and i == hold)}
+            want_start = set() if phase == "stop" else {i for i in target - before if i != hold}
+            for _ in range(1500):
+                done_stop = want_stop.isdisjoint(self.bound)
+                done_start = want_start <= set(self.bound)
+                if done_stop and done_start: break
+                await asyncio.sleep(0.002)
+            await asyncio.sleep(0.004)
+        self.loop.run_until_complete(go())
+
+    def release(self):
+        async def go():
+            self.gate.set()
+            await self._settle()
+            for t in getattr(self, "_tasks", []):
+                if not t.done(): await t
+            if not self.in_update_started: self.events.append("D")
+            self.hold_start, self.hold_stop = set(), set()
+        self.loop.run_until_complete(go())
+
+    def partial(self, modes):
+        """add a dns server (tcp+udp) on a port whose UDP side is already taken: its start fails half-way"""
+        import socket as so
+        from mitmproxy.proxy import mode_specs
+        u = so.socket(so.AF_INET, so.SOCK_DGRAM); u.bind(("127.0.0.6", 0)); port = u.getsockname()[1]
+        try:
+            spec = mode_specs.ProxyMode.parse(f"dns@127.0.0.6:{port}")
+            if spec not in self.specs: self.specs.append(spec)
+            i = self.specs.index(spec)
+            self.begin(sorted(modes) + [i], 1)
+            # is the TCP side accepting although the instance failed to start?  (independent probe with a real socket)
+            leaked = False
+            if i not in self.bound:
+                t = so.socket(so.AF_INET, so.SOCK_STREAM); t.settimeout(0.5)
+                try:
+                    t.connect(("127.0.0.6", port)); leaked = True
+                except OSError:
+                    pass
+                finally:
+                    t.close()
+                if leaked:
+                    self.bound[i] = {"tp": "both", "addrs": [["127.0.0.6", port]], "leaked": True}
+            return i, port, leaked
+        finally:
+            u.close()
+
+    def listening(self):
+        return [{"tp": v["tp"], "addrs": v["addrs"]} for _, v in sorted(self.bound.items())]
+
+
 _ENV = None
 
 
@@ -354,12 +478,21 @@ class Check(PropertyCheck):
                   "repeated_attempts_never_dial_own_socket prove that whether an attempt dials is a function of the error present "
                   "after THIS attempt's hook, so every attempt at a current own socket is killed whatever the object carried "
                   "before (attempt_fresh ties it to the single-attempt model). resolver_spelling_counterexample records the "
-                  "residual. "
+                  "residual. Updates IN FLIGHT: the listener set changes per instance start / stop event (LState: listed = "
+                  "keys of Servers._instances, bound = sockets listening now); listedInv_step / listedInv_always prove that every "
+                  "listening instance is listed at every moment of every event sequence (instances going away stay listed until "
+                  "stopped, new ones are listed before they start), and inflight_never_connects_to_listening_socket that an "
+                  "attempt at a socket LISTENING at that moment is killed whether or not the update binding or closing it has "
+                  "finished. "
                   "Tie: the real Proxyserver addon through the real AddonManager and ProxyConnectionHandler.open_connection on "
                   "~90 spellings x 33 listen configurations x transports x ports x connect outcome, stub-listener histories "
                   "(per call AND as one stateful `run`), 2-5 attempts on the SAME Server object through the same handler "
                   "(reverse-DNS-to-own-listener per-query re-opens, tcp and udp, retries after failed dials, listeners changing "
-                  "in between; state blocked/open/stale and trace of every attempt predicted by the model), and REAL-listener "
+                  "in between; state blocked/open/stale and trace of every attempt predicted by the model), update-in-flight histories (start / stop "
+                  "tasks of real server instances held at a gate the harness controls, attempts between 'first instance "
+                  "listening' and 'update finished' and while a stop is pending, a tcp+udp server whose UDP bind fails; ground "
+                  "truth = sockets the harness has seen bound, independent of Servers._instances; the per-event model predicts "
+                  "every attempt), and REAL-listener "
                   "histories: a Proxyserver with real sockets on "
                   "loopback reconfigured at run time through the mode/server options (real configure -> Servers.update); the "
                   "model is given only the OS' answers for instances it considers new and predicts which instances are kept, "
@@ -372,7 +505,9 @@ class Check(PropertyCheck):
                   "getaddrinfo(AI_NUMERICHOST) on this machine returns 127.0.0.1 / 0.0.0.0 for them — and names that IDNA-encode "
                   "to localhost) are not recognised by the guard; the oracle demands them, known() excuses exactly that class "
                   "(self-tested with near misses at start-up); names that merely resolve to a loopback address through DNS or "
-                  "/etc/hosts cannot be judged without a resolver and are outside the check. In update() mode specs are keys "
+                  "/etc/hosts cannot be judged without a resolver and are outside the check. In the settled `real` histories the oracle's listener set is read from "
+                  "Servers._instances (the model predicts it); in the `flight` histories it is the harness' own record of bound "
+                  "sockets. In update() mode specs are keys "
                   "and assumed distinct (configure rejects duplicate listen addresses); what a new instance binds is an "
                   "environment parameter. open_connection is modelled only around the server_connect hook.")
     technique = "Lean 4 proof (case analysis over the guard, spec ⊆ implementation) + exhaustive/random model-vs-code correspondence"
@@ -386,7 +521,8 @@ class Check(PropertyCheck):
             "change); every call is judged by the per-call oracle and compared with the stateless model.")
     budget = {"quick": 9000, "thorough": 250000}
     time_budget = {"quick": 10, "thorough": 500}
-    fingerprints = ["mitmproxy.addons.proxyserver:Proxyserver.server_connect", "mitmproxy.addons.proxyserver:_is_own_host",
+    fingerprints = ["mitmproxy.addons.proxyserver:Servers.update", "mitmproxy.proxy.mode_servers:AsyncioServerInstance.listen",
+                    "mitmproxy.addons.proxyserver:Proxyserver.server_connect", "mitmproxy.addons.proxyserver:_is_own_host",
                     "mitmproxy.addons.proxyserver:_unmap", "mitmproxy.proxy.server:ConnectionHandler.open_connection",
                     "mitmproxy.proxy.mode_servers:ProxyConnectionHandler.handle_hook",
                     "ipaddress:IPv4Address.is_loopback", "ipaddress:IPv6Address.is_loopback",
@@ -463,6 +599,35 @@ class Check(PropertyCheck):
             elif b: del b[rng.randrange(len(b))]
         return bytes(b).decode()
 
+    def _flight_histories(self, rng, count):
+        """attempts issued WHILE an update is in flight: two modes in one update with the second one's start held (the
+        first is already accepting), a stop held while its socket is still open, and a tcp+udp server whose UDP bind
+        fails after its TCP listener has started"""
+        pool = [0, 1, 2, 3, 4]
+        own = ["localhost", "LOCALHOST.", "127.0.0.1", "127.9.8.7", "::1", "::ffff:127.0.0.1", "0.0.0.0", "::"]
+
+        def att(spec, n=2):
+            return [{"op": "connect", "dest": rng.pick(own if rng.chance(0.8) else REAL_DESTS), "spec": spec,
+                     "tp": "udp" if spec == 4 else "tcp", "ok": rng.randint(0, 1)} for _ in range(n)]
+        for n in range(count):
+            kind = n % 4
+            a, b, c = rng.sample(pool, 3)
+            if kind == 0:      # first start: a is up, b is held
+                steps = [{"op": "begin", "modes": sorted([a, b]), "server": 1, "hold": b, "phase": "start"}] + att(a) + \
+                        [{"op": "release"}] + att(a, 1) + att(b, 1)
+            elif kind == 1:    # runtime: c kept, a added and up, b added and held
+                steps = [{"op": "modes", "modes": [c], "server": 1}] + att(c, 1) + \
+                        [{"op": "begin", "modes": sorted([a, b, c]), "server": 1, "hold": b, "phase": "start"}] + att(a) + att(c, 1) + \
+                        [{"op": "release"}] + att(b, 1)
+            elif kind == 2:    # a is being stopped (held): still listening
+                steps = [{"op": "modes", "modes": sorted([a, c]), "server": 1},
+                         {"op": "begin", "modes": [c], "server": 1, "hold": a, "phase": "stop"}] + att(a) + att(c, 1) + \
+                        [{"op": "release"}] + att(a, 1)
+            else:              # second transport fails to start
+                steps = [{"op": "modes", "modes": [a], "server": 1}, {"op": "partial", "modes": [a]}] + \
+                        [{"op": "connect", "dest": d, "spec": -1, "tp": "tcp", "ok": 1} for d in ("127.0.0.6", "localhost")] + att(a, 1)
+            yield {"flight": steps}
+
     def _conn_histories(self, rng, tier):
         """2-5 OpenConnection commands on ONE Server object: systematically the own listener opened again and again
         (reverse DNS mode pointing at its own listener: one open per query; tcp and udp, every class of spelling), a
@@ -524,6 +689,7 @@ class Check(PropertyCheck):
             yield {"real": steps}
 
     def generate(self, rng, tier):
+        yield from self._flight_histories(rng, 16 if tier != "thorough" else 160)
         yield from self._conn_histories(rng, tier)     # first: a run cut short by the time budget still has them
         if tier == "thorough":
             yield from self.exhaustive(tier)
@@ -573,6 +739,8 @@ class Check(PropertyCheck):
 
     # ---------------- implementation ----------------
     def impl(self, case):
+        if "flight" in case:
+            return self._impl_flight(case)
         if "conn" in case:
             # repeated OpenConnection commands on ONE Server object handled by ONE connection handler (what the DNS layer
             # does per query, what lazy strategies do after a failure); the listener set may change in between
@@ -628,6 +796,42 @@ class Check(PropertyCheck):
             e.close()
             if _ENV is not None: _LOG_SINK = _ENV.errors
 
+    def _impl_flight(self, case):
+        global _LOG_SINK
+        e = _FlightEnv()
+        steps, last_port, expect = [], {}, []
+        try:
+            for st in case["flight"]:
+                op = st["op"]
+                if op in ("modes", "begin"):
+                    e.begin(st["modes"], st.get("server", 1), st.get("hold"), st.get("phase"))
+                elif op == "release":
+                    e.release()
+                elif op == "partial":
+                    i, port, leaked = e.partial(st["modes"])
+                    last_port[i] = port
+                    steps.append({"partial": [i, port, leaked]})
+                if op != "connect":
+                    for i, v in e.bound.items():
+                        if v["addrs"]: last_port[i] = v["addrs"][0][1]
+                    if op != "partial": steps.append({"listening": e.listening()})
+                    continue
+                spec = st["spec"] if st["spec"] >= 0 else max(last_port, default=0)
+                dport = last_port.get(spec, 9)
+                # ground truth for the oracle: the sockets the harness has seen bound and not yet closed
+                sub = {"dest_hex": hx(st["dest"].encode()), "dport": dport, "tp": st["tp"], "ok": st["ok"],
+                       "servers": e.listening()}
+                o = self._impl_step(e, sub)
+                o["sub"] = sub
+                steps.append(o)
+                e.events.append(f"C;{sub['dest_hex']};{dport};{st['tp']};{st['ok']}")
+                expect.append("T;" + ",".join(o["trace"]))
+            self._real_line[json.dumps(case, sort_keys=True)] = "lrun " + " ".join(e.events)
+            return {"steps": steps, "expect": " ".join(expect)}
+        finally:
+            e.close()
+            if _ENV is not None: _LOG_SINK = _ENV.errors
+
     def _impl_step(self, e, case):
         h, srv, trace = e.run(case)
         return self._obs(e, h, srv, trace)
@@ -647,6 +851,13 @@ class Check(PropertyCheck):
         #  for the same transport — its explicit listen address, any loopback address or name when listening on loopback
         #  or all interfaces, or the wildcard address itself; such requests fail with a destination-unknown error instead
         #  of looping."
+        if "flight" in case:
+            # no dial to a socket that is listening at that moment (sockets the harness has seen bound and not yet closed)
+            fails = []
+            for i, o in enumerate(obs["steps"]):
+                if "sub" in o:
+                    fails += [f"step {i + 1} (update in flight / real listeners): {f}" for f in self.oracle(o["sub"], o)]
+            return fails
         if "conn" in case:
             # same statement for every attempt: no dial to a socket that is an own listening socket at that attempt
             fails = []
@@ -691,7 +902,7 @@ class Check(PropertyCheck):
     # ---------------- recorded finding F-C23b ----------------
     def known(self, case, obs, failure):
         import re
-        if "real" in case:
+        if "real" in case or "flight" in case:
             return None
         if "conn" in case:
             m = re.match(r"attempt (\d+) of \d+ on one Server object: (.*)$", failure, re.S)
@@ -772,6 +983,10 @@ class Check(PropertyCheck):
                 srv = ";".join(_srv_field(s) for s in a["servers"]) or "none"
                 steps.append(f"{a['ok']}~{srv}")
             return [f"conn {c['dest_hex']} {c['dport']} {c['tp']} " + " ".join(steps)]
+        if "flight" in case:
+            line = self._real_line.get(json.dumps(case, sort_keys=True))
+            if line is None: raise Skip()
+            return [line]
         if "real" in case:
             # the operations carry the OS' answers (ports) observed by impl(); which instances are kept and what is
             # blocked afterwards is predicted by the model
@@ -793,13 +1008,13 @@ class Check(PropertyCheck):
         return [f"sc {case['dest_hex']} {case['dport']} {case['tp']} {case['ok']} {srv}"]
 
     def model_obs(self, case, replies):
-        if "real" in case or "conn" in case: return replies[0]
+        if "real" in case or "conn" in case or "flight" in case: return replies[0]
         return list(replies) if "hist" in case else replies[0]   # per call: stateless guard; last line: stateful history
 
     def impl_view(self, case, obs):
         if "conn" in case:
             return " ".join(o["state"] + ";" + ",".join(o["trace"]) for o in obs["steps"])
-        if "real" in case: return obs["expect"]
+        if "real" in case or "flight" in case: return obs["expect"]
         if "hist" in case:
             per_call = [self.impl_view(st, o) for st, o in zip(case["hist"], obs["steps"])]
             _, expect_l = hist_ops(case["hist"])
@@ -813,6 +1028,8 @@ class Check(PropertyCheck):
         return f"{obs['state']} {'own' if denotes_own_socket(case) else 'other'} {','.join(obs['trace'])}"
 
     def classify(self, case, obs):
+        if "flight" in case:
+            return "flight:" + json.dumps(case, sort_keys=True)
         if "conn" in case:
             return "conn:" + json.dumps(case, sort_keys=True)
         if "real" in case:
@@ -823,6 +1040,15 @@ class Check(PropertyCheck):
         return (case["dest_hex"], case["dport"], case["tp"], str(case["servers"]))
 
     def branches(self, case, obs):
+        if "flight" in case:
+            out, phase = [], "settled"
+            for st, o in zip(case["flight"], obs["steps"]):
+                if st["op"] == "begin": phase = "hold-" + st["phase"]
+                elif st["op"] in ("release", "modes"): phase = "settled"
+                elif st["op"] == "partial": out.append("flight:partial-start-" + ("LEAKED" if o["partial"][2] else "clean"))
+                elif "sub" in o:
+                    out.append(f"flight:{phase}:{o['state']}:{'own' if denotes_own_socket(o['sub']) else 'other'}")
+            return out
         if "conn" in case:
             out = [f"conn:attempts{len(case['attempts'])}", "conn:" + case["conn"]["tp"]]
             prev = None
@@ -851,6 +1077,7 @@ class Check(PropertyCheck):
         return out
 
     def neighbours(self, case, rng):
+        if "flight" in case: return
         if "conn" in case:
             for a in case["attempts"]:
                 yield {"conn": case["conn"], "attempts": [a, a]}
@@ -865,6 +1092,11 @@ class Check(PropertyCheck):
                 yield self._case(dest, case["dport"], tp, case["ok"], case["servers"])
 
     def shrink_candidates(self, case):
+        if "flight" in case:
+            h = case["flight"]
+            for i in range(len(h)):
+                if len(h) > 1 and h[i]["op"] == "connect": yield {"flight": h[:i] + h[i + 1:]}
+            return
         if "conn" in case:
             h = case["attempts"]
             for i in range(len(h)):
